@@ -76,6 +76,8 @@ SPECIAL_KEYS = ["T", "F", "N", "D0000000000000000", "D8000000000000000", "D7ff00
                 "Z0000000000000000,0000000000000000", "Z8000000000000000,0000000000000000", "Z8000000000000000,8000000000000000",
                 "Z0000000000000000,7ff0000000000000", "Z8000000000000000,7ff0000000000000", "Z4000000000000000,4008000000000000",
                 "Z0000000000000000,4340000000000000", "Z8000000000000000,4340000000000000", "Z43e0000000000000,3ff0000000000000",
+                "L-9223372036854777856", "Dc3e0000000000001", "L9223372036854777856", "D43e0000000000001", "L-18446744073709549568",
+                "Dc3efffffffffffff", "L-9007199254740993", "I-9007199254740993", "Dc340000000000000", "L-9223372036854775809",
                 "S-", "Y-", "B-", "S61", "Y61", "B61", "S62", "Y62", "B6161", "Sc3a9", "Yc3a9", "Bc3a9", "Yff", "Bff",
                 "C6d.6e", "C6d.6f", "C-.-", "c( C6d.6e )", "c( C6d.6e I1 )", "c( C6d.6e D3ff0000000000000 )", "c( C6d.6f I1 )",
                 "R( I1 )", "R( L1 )", "R( S61 )", "R( Y61 )", "R( t( I1 ) )", "t( )", "t( I1 )", "t( T )", "t( L1 )",
@@ -125,12 +127,15 @@ class C07:
         ks_extra = rng.sample(range(2, 1024), 6) + [1023]
         keys = number_keys(rng, ks) + number_keys(rng, ks_extra, ds=(0, 1), rich=False) + SPECIAL_KEYS
         keys = list(dict.fromkeys(keys))
-        cap = ctx.scale(260, 1400)
+        cap = ctx.scale(420, 1600)
         if len(keys) > cap:
-            keep = set(SPECIAL_KEYS)
+            # always kept: the special keys and every representation of the small integers -3..3 and of +-2^63, +-2^64
+            # (zero against negative zero, one against True, the int64 / uint64 edges)
+            core = list(dict.fromkeys(SPECIAL_KEYS + number_keys(rng, [0, 1]) + number_keys(rng, [63, 64], ds=(-1, 0, 1))))
+            keep = set(core)
             rest = [k for k in keys if k not in keep]
             rng.shuffle(rest)
-            keys = SPECIAL_KEYS + rest[: cap - len(SPECIAL_KEYS)]
+            keys = core + rest[: max(0, cap - len(core))]
         return keys
 
     def run(self, ctx):
@@ -290,11 +295,15 @@ class C08:
             hs.append(h)
         # numbers at the edges of int64 / uint64 that are pairwise different although conversions overflow near them
         edge = ["I-9223372036854775808", "D43e0000000000000", "Dc3e0000000000000", "U9223372036854775808", "L9223372036854775808",
-                "L-9223372036854775808", "I9223372036854775807", "U18446744073709551615", "D43f0000000000000"]
-        opse = [("S", k) for k in edge] + [("D", k) for k in edge[:5]] + [("G", k) for k in edge[:5]]
+                "L-9223372036854775808", "I9223372036854775807", "U18446744073709551615", "D43f0000000000000",
+                # float-exact integers just outside int64 on either side, as *big.Int and as float64 / complex
+                "L-9223372036854777856", "Dc3e0000000000001", "Zc3e0000000000001,0000000000000000", "L9223372036854777856",
+                "D43e0000000000001", "U9223372036854777856", "L-18446744073709549568", "Dc3efffffffffffff",
+                "L-9223372036854779904", "Dc3e0000000000002"]
+        opse = [("S", k) for k in edge] + [("D", k) for k in edge[:5] + edge[9:13]] + [("G", k) for k in edge[:5] + edge[9:13]]
         for n in (1, 2, 3):
             for combo in itertools.product(opse, repeat=n):
-                if n == 3 and rng.random() > (0.5 if ctx.thorough else 0.06):
+                if n == 3 and rng.random() > (0.3 if ctx.thorough else 0.02):
                     continue
                 hs.append([(op, k, f"I{100 + i}") for i, (op, k) in enumerate(combo)] + [("G", k, "") for k in edge])
         for _ in range(ctx.scale(25, 300)):
